@@ -439,6 +439,14 @@ impl<'l> CelCompiler<'l> {
                         ),
                     ));
                 } else if self.bindings.get_type(&i).is_some() {
+                    let type_pattern = match MatchTypePattern::from_type_str(&i) {
+                        Some(pattern) => pattern,
+                        None => {
+                            return Err(SyntaxError::from_location(start)
+                                .with_message(format!("{} cannot be used as a type pattern", i))
+                                .into())
+                        }
+                    };
                     self.tokenizer.next()?;
                     return Ok((
                         CompiledProg::with_bytecode(
@@ -453,7 +461,7 @@ impl<'l> CelCompiler<'l> {
                         ),
                         AstNode::new(
                             MatchPattern::Type(AstNode::new(
-                                MatchTypePattern::from_type_str(&i),
+                                type_pattern,
                                 SourceRange::new(start, self.tokenizer.location()),
                             )),
                             SourceRange::new(start, self.tokenizer.location()),
